@@ -96,19 +96,115 @@ def _factor_classes(idx, c: ClassInfo) -> Tuple[List[ClassInfo], List[ast.Call]]
     return cls_out, cov_out
 
 
-def _parse_table(f) -> Dict[str, Optional[int]]:
-    """get_transform_TR / Inv: name → p (0 / 1) or None (no transform declared)."""
+class _Raise(Exception):
+    pass
+
+
+class _Ret(Exception):
+    def __init__(self, v):
+        self.v = v
+
+
+def _fold(idx, f, env: Dict[str, object], depth: int = 0):
+    """Constant-fold a small pure function (if-chains on `x in <literal container>`, integer arithmetic, conditional
+    expressions, calls of module-level helpers of the same kind) for concrete arguments.  Returns the returned value,
+    where the two transform singletons are folded to the strings 'ident' / 'odd'; raises _Raise if the function raises."""
+    m = f.module
+
+    def ev(e):
+        if isinstance(e, ast.Constant):
+            return e.value
+        if isinstance(e, ast.Name):
+            if e.id in env:
+                return env[e.id]
+            if e.id == "transform_ident":
+                return "ident"
+            if e.id == "transform_odd":
+                return "odd"
+            a_ = m.assigns.get(e.id)
+            if a_ and len(a_) == 1:
+                return ev(a_[0])
+            raise AnalysisError(f"{f.short}: cannot fold name `{e.id}`")
+        if isinstance(e, (ast.List, ast.Tuple, ast.Set)):
+            return [ev(x) for x in e.elts]
+        if isinstance(e, ast.BinOp):
+            l_, r_ = ev(e.left), ev(e.right)
+            if isinstance(e.op, ast.Add):
+                return l_ + r_
+            if isinstance(e.op, ast.Sub):
+                return l_ - r_
+            if isinstance(e.op, ast.Mod):
+                return l_ % r_
+            if isinstance(e.op, ast.Mult):
+                return l_ * r_
+        if isinstance(e, ast.UnaryOp) and isinstance(e.op, ast.Not):
+            return not ev(e.operand)
+        if isinstance(e, ast.BoolOp):
+            vals = [ev(v) for v in e.values]
+            return all(vals) if isinstance(e.op, ast.And) else any(vals)
+        if isinstance(e, ast.IfExp):
+            return ev(e.body) if ev(e.test) else ev(e.orelse)
+        if isinstance(e, ast.Compare) and len(e.ops) == 1:
+            l_, r_ = ev(e.left), ev(e.comparators[0])
+            op = e.ops[0]
+            return {ast.In: lambda: l_ in r_, ast.NotIn: lambda: l_ not in r_, ast.Eq: lambda: l_ == r_, ast.NotEq: lambda: l_ != r_,
+                    ast.Is: lambda: l_ is r_, ast.IsNot: lambda: l_ is not r_, ast.Lt: lambda: l_ < r_, ast.Gt: lambda: l_ > r_}[type(op)]()
+        if isinstance(e, ast.Call) and isinstance(e.func, ast.Name) and e.func.id in m.functions and depth < 3:
+            g = m.functions[e.func.id]
+            params = g.params
+            sub = {p_: ev(a_) for p_, a_ in zip(params, e.args)}
+            sub.update({k.arg: ev(k.value) for k in e.keywords})
+            return _fold(idx, g, sub, depth + 1)
+        raise AnalysisError(f"{f.short}: expression outside the foldable subset: {norm1(e)}")
+
+    def run_block(body):
+        for s_ in body:
+            if isinstance(s_, ast.Expr) and isinstance(s_.value, ast.Constant):
+                continue
+            if isinstance(s_, ast.Assign) and len(s_.targets) == 1 and isinstance(s_.targets[0], ast.Name):
+                env[s_.targets[0].id] = ev(s_.value)
+            elif isinstance(s_, ast.If):
+                run_block(s_.body if ev(s_.test) else s_.orelse)
+            elif isinstance(s_, ast.Return):
+                raise _Ret(ev(s_.value) if s_.value is not None else None)
+            elif isinstance(s_, ast.Raise):
+                raise _Raise()
+            elif isinstance(s_, ast.Pass):
+                continue
+            else:
+                raise AnalysisError(f"{f.short}: statement outside the foldable subset: {norm1(s_)}")
+    try:
+        run_block(f.node.body)
+    except _Ret as r_:
+        return r_.v
+    return None
+
+
+def _parse_table(f, idx=None) -> Dict[str, Optional[int]]:
+    """get_transform_TR / Inv: name → p (0 / 1) or None (no transform declared), by constant-folding the function for
+    every quantity name that occurs in it (or in the module-level tuples it consults) and der = 0, 1."""
+    names = set()
+    srcs = [f.node] + [v[0] for k, v in f.module.assigns.items() if len(v) == 1 and any(isinstance(n, ast.Name) and n.id == k for n in ast.walk(f.node))]
+    for src in srcs:
+        for n in ast.walk(src):
+            if isinstance(n, (ast.List, ast.Tuple, ast.Set)) and n.elts and all(isinstance(x, ast.Constant) and isinstance(x.value, str) for x in n.elts):
+                names |= {x.value for x in n.elts}
     table: Dict[str, Optional[int]] = {}
-    for s in ast.walk(f.node):
-        if isinstance(s, ast.If) and isinstance(s.test, ast.Compare) and isinstance(s.test.ops[0], ast.In) and norm(s.test.left) == "name":
-            names = [e.value for e in s.test.comparators[0].elts]
-            body = s.body[0]
-            if isinstance(body, ast.Assign) and norm(body.targets[0]) == "p":
-                for n in names:
-                    table[n] = body.value.value
-            elif isinstance(body, ast.Return) and norm(body.value) == "None":
-                for n in names:
-                    table[n] = None
+    pn, dn = f.params[0], f.params[1]
+    for nm in sorted(names):
+        try:
+            r0 = _fold(idx, f, {pn: nm, dn: 0})
+            r1 = _fold(idx, f, {pn: nm, dn: 1})
+        except _Raise:
+            continue
+        if r0 is None and r1 is None:
+            table[nm] = None
+        elif (r0, r1) == ("ident", "odd"):
+            table[nm] = 0
+        elif (r0, r1) == ("odd", "ident"):
+            table[nm] = 1
+        else:
+            raise AnalysisError(f"{f.short}: `{nm}` folds to {r0!r} (der=0) / {r1!r} (der=1): not a parity that flips with each derivative")
     return table
 
 
@@ -199,12 +295,21 @@ def run(ctx) -> None:
 
     # ---------------------------------------------------------------- R08.2
     r2 = ctx.rule("R08.2", "covariant(): declared transform uses the applied derivative order; consumed table rows", min_instances=6)
-    tabs = {"TR": _parse_table(idx.function(DK, "get_transform_TR")), "Inv": _parse_table(idx.function(DK, "get_transform_Inv"))}
+    tabs = {"TR": _parse_table(idx.function(DK, "get_transform_TR"), idx), "Inv": _parse_table(idx.function(DK, "get_transform_Inv"), idx)}
     for kind, fn in (("TR", "get_transform_TR"), ("Inv", "get_transform_Inv")):
         f = idx.function(DK, fn)
         t = norm(f.node).replace(" ", "")
         r2.instance(f"{f.short}: {len(tabs[kind])} names")
-        r2.check("if(p+der)%2==1:returntransform_oddelse:returntransform_ident" in t.replace("\n", ""),
+        okpar = bool(tabs[kind])
+        for nm_, p_ in tabs[kind].items():
+            if p_ is None:
+                continue
+            for d_ in range(4):
+                try:
+                    okpar = okpar and _fold(idx, f, {f.params[0]: nm_, f.params[1]: d_}) == ("odd" if (p_ + d_) % 2 == 1 else "ident")
+                except (_Raise, AnalysisError):
+                    okpar = False
+        r2.check(okpar,
                  f"{fn}: parity rule (p + der) mod 2", f, f.node, f"{fn} no longer returns odd iff (p + der) is odd", stmt="parity rule")
 
     def table_sign(kind: str, name: str, der: int) -> Optional[int]:
